@@ -119,11 +119,11 @@ Definition static_assert_holds (t : ty) : bool :=
   if 0 <? s then (fst (cl t) =? s) && (snd (cl t) =? a) else true.
 
 (* well-formed type trees: primitives of the table, arrays of any length >= 0, records (packed or not,
-   with or without fields) whose user alignment is a power of two up to 65536, unions - nested arbitrarily.
-   Left out although the analyzer accepts them: <aligned(N)> with N not a power of two (the emitted C is
-   rejected by gcc and clang: known finding, witness replayed) and N > 65536 (a bound of this model only: gcc
-   and clang accept up to 2^28), 128-bit integers, and the type constructors [ty] does not have (enums, spans,
-   strings, function types, pointers to incomplete types). *)
+   with or without fields) whose user alignment is a power of two in 1 .. aligned_pow2_max, unions - nested
+   arbitrarily.  The alignment domain is exactly what the analyzer accepts since /repo 42ec760 (the bound is scraped
+   from visitors.Annotation into Gen.v; before, any integer was accepted and aligned(3) reached the C compiler).
+   Still left out: 128-bit integers as fields, and the type constructors [ty] does not have (enums, spans, strings,
+   function types, pointers to incomplete types). *)
 Definition is_pow2 (a : Z) : bool := (0 <? a) && (Z.land a (a - 1) =? 0).
 Fixpoint wfb (t : ty) : bool :=
   match t with
@@ -132,7 +132,7 @@ Fixpoint wfb (t : ty) : bool :=
   | TArr t n => wfb t && (0 <=? n)
   | TRec fs packed aligned =>
     forallb wfb fs &&
-    match aligned with Some A => is_pow2 A && (A <=? 65536) | None => true end
+    match aligned with Some A => is_pow2 A && (A <=? aligned_pow2_max) | None => true end
   | TUni fs => forallb wfb fs
   end.
 
